@@ -99,7 +99,11 @@ class World(object):
                         self.logged.append((b'', None))
                 if not ok:
                     return ['SInapplicable']
-                return self._render_outs()
+                r = self._render_outs()
+                if pool.misrouted is not None:
+                    r.append('SRaise (* bytes of listener %d were handled by the dispatcher of listener %r *)' % pool.misrouted)
+                    pool.misrouted = None
+                return r
             if kind == 'writable':
                 r = pool.op_writable(op[1], tuple(op[2]))
                 return ['SRaise'] if r == 'raise' else []
@@ -114,6 +118,8 @@ class World(object):
                 return [] if pool.op_stop(op[1]) else ['SInapplicable']
             if kind == 'stopfail':
                 return [] if pool.op_stopfail(op[1]) else ['SInapplicable']
+            if kind == 'spawnfail':
+                return [] if pool.op_spawnfail(op[1]) else ['SInapplicable']
             if kind == 'finish':
                 self.cur = op[1]
                 self.recording = True
@@ -219,6 +225,8 @@ def op_term(world, op):
         return '(SProc %d PStop)' % op[1]
     if k == 'stopfail':
         return '(SProc %d PStopFail)' % op[1]
+    if k == 'spawnfail':
+        return '(SProc %d PSpawnFail)' % op[1]
     if k == 'finish':
         return '(SProc %d (PFinish %s %s %s))' % (op[1], bytes_lit(bytes(op[2])), w_term(op[3]), blit(op[4]))
     if k == 'dispatch':
@@ -294,6 +302,17 @@ def monitor(start, ops, trace, envelopes):
                                               'stdin is open and writable (process state %s, killing=%s): the listener '
                                               'received a header announcing more payload than it ever gets'
                                               % (i, len(ibuf), pre[i][0], pre[i][2]))
+        for o in outs:
+            if o.startswith('SRaise (* bytes of listener'):
+                return dict(where, broken='output of one listener reached the state machine of another: ' + o[10:-3] +
+                                          ' (a stale dispatcher is registered for a descriptor number that was reused)')
+        if kind == 'dispatch' and 'SRaise' in outs and not any(w[0] == 'err' for w in op[2]):
+            return dict(where, broken='_dispatchEvent raised although no write failed with an error other than EAGAIN/EPIPE '
+                                      '(a full pipe must count as 0 bytes sent: the listener goes BUSY and gets the '
+                                      'envelope with the next write events)')
+        if kind == 'finish' and 'SInapplicable' not in outs and 'SRaise' not in outs and post[op[1]][4] is not None:
+            return dict(where, broken='listener %d died holding event %r and still holds it: the event was not returned '
+                                      'to the pool (process state before: %s, killing=%s)' % (op[1], post[op[1]][4], pre[op[1]][0], pre[op[1]][2]))
         if kind == 'finish' and 'SRaise' in outs:
             return dict(where, broken='an exception escaped from finish() (drain of a dead listener): it would end the main loop')
         if kind != 'dispatch':
